@@ -49,6 +49,9 @@ def shapes(tier, seed):
         out.append(('repeat', carrier, 'bad-date'))
         for first in ('bad-query', 'bad-date', 'wrong-sig', 'prefix-unsigned'):
             out.append(('history', carrier, first))
+    # one authenticator object used more than once (and cloned): no call may depend on an earlier one (no interior mutability)
+    out.append(('auth-reuse', 'same'))
+    out.append(('auth-reuse', 'clone'))
     out.append(('statics',))
     return out
 
@@ -127,6 +130,34 @@ def run_shape(prog, shape, tier, seed, res):
     collected = []
 
     def body(m, ctx):
+        if kind == 'auth-reuse':
+            from mirse import model_chrono as C
+
+            def build_auth():
+                b = m.call('SigV4AuthenticatorBuilder::create_empty', [], None)
+                b.fields[0] = some(Array([Int('u8', 0xAB)] * 32))
+                b.fields[1] = some(mk_string('AKID/' + SCOPE))
+                b.fields[3] = some(mk_string('0' * 64))
+                b.fields[4] = some(instant(T0))
+                r = m.call('SigV4AuthenticatorBuilder::build', [Ptr(Cell(b), ())], None)
+                if r.variant != 'Ok':
+                    raise Unsupported('SigV4AuthenticatorBuilder::build failed in the harness')
+                return r.fields[0]
+
+            def pre(auth, region, delta):
+                r = m.call('SigV4Authenticator::prevalidate', [Ptr(Cell(auth), ()) if not isinstance(auth, Ptr) else auth, str_ptr(region), str_ptr('service'),
+                                                               instant(T0 + delta), C.TimeDelta(900)], None)
+                return 'ok' if r.variant == 'Ok' else r.fields[0].variant
+            auth = build_auth()
+            cell = Cell(auth)
+            first = pre(Ptr(cell, ()), 'us-east-1', 0)
+            target = cell.v
+            if shape[1] == 'clone':
+                target = m.call('<SigV4Authenticator as Clone>::clone', [Ptr(cell, ())], None)
+            tcell = Cell(target)
+            later = [pre(Ptr(tcell, ()), 'us-east-1', 5000), pre(Ptr(tcell, ()), 'eu-west-1', 0), pre(Ptr(tcell, ()), 'us-east-1', -5000)]
+            fresh = [pre(build_auth(), 'us-east-1', 5000), pre(build_auth(), 'eu-west-1', 0), pre(build_auth(), 'us-east-1', -5000)]
+            return ('auth-reuse', first, later, fresh)
         if kind == 'statics':
             # run one validation so that every lazy static that the pipeline touches is initialised, then look at the cells
             key = sym_bytes(ctx, 'key', 32)
@@ -166,6 +197,13 @@ def run_shape(prog, shape, tier, seed, res):
             res.findings.append(Finding('panic: %s' % pr.value.msg, {'shape': repr(shape)}, None, None, repr(shape)))
             return
         v = pr.value
+        if v[0] == 'auth-reuse':
+            _, first, later, fresh = v
+            res.witnesses.add('auth-reuse:' + first)
+            if first != 'ok' or later != fresh:
+                res.findings.append(Finding('prevalidate on an authenticator that was used before answers %s, a fresh authenticator answers %s for the same arguments' % (later, fresh),
+                                            {'shape': list(shape), 'auth_reuse': shape[1]}, None, None, repr(shape)))
+            return
         if v[0] == 'statics':
             cells = v[1]
             res.witnesses.add('statics:%d' % len(cells))
@@ -253,7 +291,7 @@ def static_scan(prog):
     import glob
     for p in glob.glob(REPO + '/src/*.rs'):
         src += open(p).read()
-    interior = sorted(set(re.findall(r'\b(RefCell|Cell|Mutex|RwLock|Atomic\w+|OnceCell|UnsafeCell)\b', src)))
+    interior = sorted(set(re.findall(r'\b(RefCell|Cell|Mutex|RwLock|Atomic\w+|OnceCell|OnceLock|LazyCell|LazyLock|UnsafeCell)\b', src)))
     return {'static_mut_items': static_mut, 'statics': statics, 'interior_mutability_mentions_in_src': interior}
 
 
@@ -285,6 +323,19 @@ def sign_fold(base, carrier, signed_names):
 
 def replay_finding(rp, f):
     inp = f.inp
+    if 'auth_reuse' in inp:
+        base = {'op': 'authenticator', 'canonical_request_sha256': 'ab' * 32, 'credential': 'AKID/' + SCOPE, 'session_token': None, 'signature': '0' * 64,
+                'timestamp': {'secs': T0, 'nanos': 0}, 'call': 'prevalidate', 'service': 'service', 'mismatch_secs': 900, 'mismatch_nanos': 0,
+                'provider': {'result': {'signing_key_hex': '00' * 32}}, 'log_level': 'off'}
+        outs = []
+        for region, delta in (('us-east-1', 5000), ('eu-west-1', 0), ('us-east-1', -5000)):
+            args = dict(base, region=region, server_time={'secs': T0 + delta, 'nanos': 0})
+            fresh = rp.ask(args).get('result', {})
+            used = rp.ask(dict(args, warmup=[{'region': 'us-east-1', 'service': 'service', 'server_time': {'secs': T0, 'nanos': 0}}],
+                               main_on_clone=(inp['auth_reuse'] == 'clone'))).get('result', {})
+            k = lambda r: 'ok' if 'ok' in r else r.get('err', {}).get('kind', 'panic')
+            outs.append((region, delta, k(fresh), k(used)))
+        return any(a != b for _, _, a, b in outs), {'region_delta_fresh_used': outs}
     if 'request' not in inp:
         return False, None
     if inp.get('first'):
